@@ -13,6 +13,7 @@ import (
 	"runtime"
 	"strconv"
 	"sync"
+	"sync/atomic"
 	"time"
 
 	"github.com/ipld/go-storethehash/store/vhook"
@@ -43,9 +44,27 @@ func hook(point string) {
 		h(point)
 	}
 	if t == nil {
+		if h == nil {
+			if g, ok := global.Load().(func(string)); ok && g != nil {
+				g(point)
+			}
+		}
 		return
 	}
 	t.at(point)
+}
+
+var global atomic.Value // func(string): handler for goroutines that are neither threads nor have their own handler
+
+// SetGlobal installs (or with nil removes) the handler for yield points passed by
+// goroutines the harness did not start, i.e. the library's own background goroutines.
+// Only one scenario per process may use it at a time.
+func SetGlobal(fn func(point string)) {
+	once.Do(func() { vhook.SetHook(hook) })
+	if fn == nil {
+		fn = func(string) {}
+	}
+	global.Store(fn)
 }
 
 var handlers = map[uint64]func(string){}
